@@ -12,10 +12,12 @@ Obs == ndJsonDeserialize("obs15.ndjson")
 ProgramVerdicts == {"Normal", "Nonzero", "Signalled", "TLE", "MLE", "OLE", "Disallowed"}
 
 PropOK(o) == o.status \in ProgramVerdicts /\ ~o.stuck
-Expected(o) == IF o.kind = "nr" THEN "Disallowed"
-               ELSE IF o.kind = "race" THEN o.status
-               ELSE "Normal"
-Judge(o) == IF ~PropOK(o) THEN "viol" ELSE IF o.status # Expected(o) THEN "drift" ELSE "ok"
+\* (a number the kernel does not even put to the filter -- negative or x32-tagged on a kernel without
+\* x32 -- just fails with ENOSYS and the program carries on)
+Expected(o) == IF o.kind = "nr" THEN {"Disallowed", "Normal"}
+               ELSE IF o.kind = "race" THEN {o.status}
+               ELSE {"Normal"}
+Judge(o) == IF ~PropOK(o) THEN "viol" ELSE IF o.status \notin Expected(o) THEN "drift" ELSE "ok"
 
 Bad == { i \in DOMAIN Obs : Judge(Obs[i]) # "ok" }
 ASSUME ndJsonSerialize("bad15.ndjson", SetToSeq({ [i |-> i, j |-> Judge(Obs[i])] : i \in Bad }))
